@@ -146,11 +146,16 @@ pub fn run(ctx: &Ctx) -> i32 {
         Tier::Thorough => ctx.scaled(40),
     };
     let skip_os = cfg!(miri);
+    // Under Miri (harness validation only) a reduced matrix: every container, four provenances
+    let reduced = ctx.extra.contains_key("reduced");
     let mut cases: Vec<(usize, C16Case)> = Vec::new();
     for (si, set) in all.iter().enumerate() {
         for (ty, provs) in [(KeyTy::Sk, &SK_PROVS[..]), (KeyTy::Pk, &PK_PROVS[..])] {
             for prov in provs {
                 if skip_os && *prov == Prov::KeygenOs {
+                    continue;
+                }
+                if reduced && !matches!((ty, *prov), (KeyTy::Sk, Prov::KeygenSeed) | (KeyTy::Sk, Prov::FromBytes) | (KeyTy::Pk, Prov::KeygenSeed) | (KeyTy::Pk, Prov::Derived)) {
                     continue;
                 }
                 for cont in CONTAINERS {
